@@ -832,3 +832,125 @@ def _judge_round(ctx, res, e, parr, rows, name, p):
     if res.array.shape != (len(rows), len(parr)) or not np.all(good):
         j = int(np.argmin(good)) if good.shape else 0
         ctx.fail(name, name, {"p": p, "q": rows[j][0], "r": rows[j][1]}, p, res.array[j] if res.array.ndim == 2 else res.array)
+
+
+# ---------------------------------------------------------------------------------------------------
+# many-bit coordinates: the same exact configurations, mapped by an exact integer collineation and scaled by a power of
+# two so that every coordinate is a 21-bit dyadic fraction of magnitude ~1. The classification (dependent / skew /
+# general position) is unchanged and still exact, but the library's contractions now ROUND: a dependent configuration
+# produces rounding noise of size 1e-16 instead of an exact zero tensor, which is the situation the tolerance in the
+# dependence test exists for (small integers never exercise it).
+
+M3_BIG = ((700001, -912343, 345679, 123457), (-654321, 999983, 1048573, 333331), (777777, 555557, -1000003, 222223), (314159, 271829, 161803, -141421))
+M3_MID = ((701, -912, 345, 123), (-654, 999, 1021, 333), (777, 555, -1003, 222), (314, 271, 161, -141))
+
+
+def _imatvec(M, v):
+    return tuple(sum(M[i][j] * v[j] for j in range(len(v))) for i in range(len(M)))
+
+
+def _cofactor(M):
+    n = len(M)
+
+    def minor(i, j):
+        return [[M[r][c] for c in range(n) if c != j] for r in range(n) if r != i]
+
+    def idet(A):
+        if len(A) == 1:
+            return A[0][0]
+        return sum((-1) ** j * A[0][j] * idet([r[:j] + r[j + 1 :] for r in A[1:]]) for j in range(len(A)))
+
+    return tuple(tuple((-1) ** (i + j) * idet(minor(i, j)) for j in range(n)) for i in range(n))
+
+
+C3_MID = _cofactor(M3_MID)
+
+
+def many_bit_vectors(kind, vecs):
+    """Returns (integer vectors for the exact classification, list of (integer vector, binary exponent) to build floats)."""
+    op, spec, rk, n = KINDS[kind]
+    kinds = set(spec)
+    out, k = [], 0
+    for c in spec:
+        for _ in range(NVEC[c]):
+            v = vecs[k]
+            k += 1
+            if kinds <= {"P", "L"} or kinds <= {"H", "M"}:
+                out.append((_imatvec(M3_BIG, v), 20))
+            elif c in "PL":
+                out.append((_imatvec(M3_MID, v), 10))
+            else:
+                out.append((_imatvec(C3_MID, v), 30))
+    return tuple(v for v, _ in out), out
+
+
+MANY_BIT_KINDS = ("join_ppp_3", "meet_eee_3", "join_lp_3", "join_pl_3", "join_mp_3", "meet_el_3", "meet_le_3", "meet_em_3", "join_ll_3", "meet_ll_3", "join_lm_3", "meet_ml_3")
+
+
+def enum_many_bits(tier, seed):
+    t3, c3 = T3(), C3()
+    for kind in MANY_BIT_KINDS:
+        scope = itertools.product(t3, repeat=3) if nvec(KINDS[kind][1]) == 3 else itertools.product(c3, repeat=4)
+        for i, vs in enumerate(scope):
+            cl = classify(kind, vs)
+            if cl[0] == "badarg":
+                continue
+            # every dependent and skew configuration; general position: every 5th (quick) / all (thorough)
+            if cl[0] == "ok" and tier == "quick" and i % 5 != seed % 5:
+                continue
+            yield (kind, vs)
+
+
+@family(["C01", "C02"], "many_bit_coordinates", enum_many_bits)
+def case_many_bits(ctx, cfg):
+    G = _geom()
+    from geometer.exceptions import LinearDependenceError, NotCoplanar
+
+    kind, vecs = cfg
+    vecs = tuple(tuple(v) for v in vecs)
+    op, spec, rk, n = KINDS[kind]
+    ivecs, scaled = many_bit_vectors(kind, vecs)
+    cl = classify(kind, ivecs)
+    assert cl[0] == classify(kind, vecs)[0], "harness: a collineation changed the classification"
+    ctx.tally(f"{kind}:{cl[0]}")
+    if (cl[0] == "ok") != (ctx.pid == "C01"):
+        ctx.state((kind, vecs), nontrivial=False)
+        return  # C01 judges the general-position values, C02 the degenerate ones
+    ctx.state((kind, vecs))
+    fl = [np.ldexp(np.array(v, dtype=float), -e) for v, e in scaled]
+    assert all(np.all(np.ldexp(a, e) == np.array(v, dtype=float)) and all(abs(x) < 2**53 for x in v) for a, (v, e) in zip(fl, scaled)), "harness: coordinates not exact"
+    args, k = [], 0
+    for c in spec:
+        vs = fl[k : k + NVEC[c]]
+        k += NVEC[c]
+        args.append(build(G, c, vs, float, n))
+    f = G.join if op == "join" else G.meet
+    inputs = {"kind": kind, "lattice_vectors": vecs, "coordinates": [a.tolist() for a in fl]}
+    res, e = ctx.call(f, *args)
+    ctx.trace()
+    if cl[0] == "dep":
+        if not isinstance(e, LinearDependenceError):
+            ctx.fail(f"{kind}:many-bits:dependent:{'no-raise' if e is None else _exc_name(e)}", op, inputs, "LinearDependenceError", e if e is not None else res)
+            return
+        # the same configuration as one position of a collection: error with the right mask
+        if set(spec) <= {"P", "H"}:
+            good = [np.eye(n)[i] for i in range(len(spec))]
+            colls = []
+            for a, g, c in zip(args, good, spec):
+                cls = G.PointCollection if c == "P" else G.PlaneCollection
+                colls.append(cls(np.stack([g, a.array, g])))
+            r2, e2 = ctx.call(f, *colls)
+            ctx.trace()
+            if not isinstance(e2, LinearDependenceError) or not np.array_equal(np.asarray(e2.dependent_values), np.array([False, True, False])):
+                ctx.fail(f"{kind}:many-bits:collection-mask", op, inputs, [0, 1, 0], e2 if not isinstance(e2, LinearDependenceError) else np.asarray(e2.dependent_values).astype(int))
+        return
+    if cl[0] == "skew":
+        if not isinstance(e, NotCoplanar):
+            ctx.fail(f"{kind}:many-bits:skew:{'no-raise' if e is None else _exc_name(e)}", op, inputs, "NotCoplanar", e if e is not None else res)
+        return
+    if e is not None:
+        ctx.fail(f"{kind}:many-bits:general-position-raises:{_exc_name(e)}", op, inputs, "a result", e)
+        return
+    want = exp_np(cl[1])
+    if not result_ok_type(G, res, rk, n, False) or not proj_eq(res.array, want, 1e-9):
+        ctx.fail(f"{kind}:many-bits:value", op, inputs, "exact image", res.array)
